@@ -68,7 +68,7 @@ class Check(PropertyCheck):
                   "directly as an oracle: every registered view x random and structured bodies x message kinds: no exception, "
                   "clean text; DNS: reencode_message(prettify_message(m)) decoded by mitmproxy.dns equals the original.")
     level_note = ("partial: the DNS round trip is proved only under the guard (reserved = 0, every NS/CNAME/PTR/TXT rdata decodable, "
-                  "no U+0085 in the YAML) — the three excluded classes are genuine defects recorded as F-C50a/b/c. Assumed (parameters "
+                  "no U+0085 in the YAML, YAML load o dump identity) — the excluded classes are genuine defects recorded as F-C50a/b/c/d. Assumed (parameters "
                   "with laws, validated by the tie, not proved): ruamel YAML dump/load, the IPv4/IPv6/IDNA/UTF-8/HTTPS-record codecs "
                   "are partial inverses; Rust and Python view bodies are black boxes (arbitrary functions in the theorem; their "
                   "exceptions are modelled as the `raised` input). Decoding for the oracle uses mitmproxy.dns itself; inputs that "
@@ -78,7 +78,9 @@ class Check(PropertyCheck):
             "content-encoding / missing body, TCP, UDP, WebSocket text/binary, DNS message) x body (70% structured: JSON, XML/HTML, CSS, JS, "
             "GraphQL, protobuf, gRPC, msgpack, MQTT, multipart, urlencoded, PNG/GIF/JPEG/ICO headers, zip, DNS wire, socket.io, WBXML, HTTP/3 "
             "frames; 20% mutated with control bytes; 10% random); dns cases: random DNS messages (all header bits, known and unknown "
-            "types/classes, valid and invalid rdata, text with YAML-significant and control characters) x transport dns/udp/tcp/http. "
+            "types/classes, valid and invalid rdata, text with YAML-significant and control characters) x transport dns/udp/tcp/http, "
+            "hand-packed (uncompressed) wire form; plus LARGE messages of 17-45 KiB (many TXT/A records, names up to 253 bytes, owner names "
+            "re-used after first occurring before and after byte offset 16384). "
             "distinct = distinct case; non-trivial = body non-empty.")
     budget = {"quick": 9000, "thorough": 150000}
     time_budget = {"quick": 22, "thorough": 600}
@@ -222,8 +224,12 @@ class Check(PropertyCheck):
             for msg in ["req", "resp", "tcp", "udp", "ws_text", "ws_bin", "dnsmsg"]:
                 for d in (b"", b"\x1b\x9b"):
                     yield {"kind": "render", "view": v, "msg": msg, "data_hex": hx(d), "ctype_hex": "-", "cenc": "", "missing": 0, "port": 80}
+        for _ in range(3 if tier == "quick" else 12):
+            yield self.gen_big_dns(rng)
         while True:
-            if rng.chance(0.6): yield self.gen_render(rng, views)
+            r = rng.random()
+            if r < 0.6: yield self.gen_render(rng, views)
+            elif r < (0.603 if tier == "quick" else 0.61): yield self.gen_big_dns(rng)
             else: yield self.gen_dns(rng)
 
     # ---------------------------------------------------------------- implementation runner
@@ -262,6 +268,60 @@ class Check(PropertyCheck):
                 m = tutils.tdnsresp()
             return m, tflow.tdnsflow(req=m)
         raise ValueError(msg)
+
+    @staticmethod
+    def hand_pack(case):
+        """uncompressed RFC 1035 wire form of the case, or None if a name cannot be written"""
+        def name(h):
+            out = b""
+            n = h2s(h)
+            if n:
+                for label in n.split("."):
+                    try: l = label.encode("idna")
+                    except Exception: return None
+                    if not 0 < len(l) < 64: return None
+                    out += bytes([len(l)]) + l
+            return out + b"\x00"
+        flags = ((0 if case["query"] else 1) << 15) | (case["op"] << 11) | (case["aa"] << 10) | (case["tc"] << 9) | (case["rd"] << 8) \
+            | (case["ra"] << 7) | (case["z"] << 4) | case["rcode"]
+        out = struct.pack("!HHHHHH", case["id"], flags, len(case["qs"]), len(case["an"]), len(case["ns"]), len(case["ar"]))
+        for n, t, c in case["qs"]:
+            w = name(n)
+            if w is None: return None
+            out += w + struct.pack("!HH", t, c)
+        for n, t, c, ttl, d in case["an"] + case["ns"] + case["ar"]:
+            w = name(n); data = unhx(d)
+            if w is None or len(data) > 65535: return None
+            out += w + struct.pack("!HHIH", t, c, ttl, len(data)) + data
+        return out
+
+    def gen_big_dns(self, rng, late=None):
+        """LARGE messages (16-64 KiB): many records, long names, long TXT data, owner names repeated after their first
+        occurrence before and AFTER byte offset 16384 (the reach of a 14-bit compression pointer)"""
+        def txt(n):        # valid UTF-8 character-strings, first length byte < 0x80
+            out = b""
+            while n > 0:
+                k = min(n, rng.randint(20, 120) if rng.chance(0.1) else rng.randint(40, 120)); out += bytes([k]) + bytes(rng.pick(b"abcxyz 0123=;.-") for _ in range(k)); n -= k + 1
+            return out
+        def longname(i):
+            labels = [f"h{i:03d}"] + ["l" * rng.randint(1, 63) for _ in range(rng.randint(0, 3))] + ["bulk", "example", "org"]
+            n = ".".join(labels)
+            return n if len(n) <= 253 else f"h{i:03d}.bulk.example.org"
+        early = "early.example.org"
+        an, size = [], 12 + 22
+        target = rng.pick([17000, 20000, 30000, 45000])
+        i = 0
+        while size < target and i < 400:
+            nm = early if rng.chance(0.1) else longname(i)
+            if rng.chance(0.75): t, d = 16, txt(rng.pick([40, 90, 200, 400, 1200]))
+            else: t, d = rng.pick([(1, rng.bytes_(4)), (28, rng.bytes_(16)), (99, rng.bytes_(rng.randint(0, 300)))])
+            an.append([s2h(nm), t, 1, rng.pick([0, 300, 2 ** 31]), hx(d)]); size += len(nm) + 2 + 10 + len(d); i += 1
+        late = late or rng.pick(["late.example.org", "l" * 63 + ".late.example", longname(999)])
+        ar = [[s2h(late), 1, 1, 300, hx(rng.bytes_(4))], [s2h(early), 1, 1, 300, hx(rng.bytes_(4))],
+              [s2h(late), 1, 1, 300, hx(rng.bytes_(4))], [s2h(late), 28, 1, 300, hx(rng.bytes_(16))],
+              [s2h(h2s(an[-1][0])), 16, 1, 5, hx(txt(30))], [s2h("other.example.org"), 1, 1, 300, hx(rng.bytes_(4))]]
+        return {"kind": "dns", "mode": rng.pick(["dns", "udp", "tcp", "http"]), "id": rng.getrandbits(16), "query": 0, "op": 0, "aa": rng.randint(0, 1),
+                "tc": 0, "rd": 1, "ra": 1, "z": 0, "rcode": 0, "qs": [[s2h(early), 16, 1]], "an": an, "ns": [], "ar": ar, "big": 1}
 
     def build_dns(self, case):
         from mitmproxy import dns
@@ -380,13 +440,23 @@ class Check(PropertyCheck):
                             "rawt": cps(contentviews.raw.prettify(data, md)), "name": cps(view.name)}
             return obs
         if kind == "dns":
+            # the wire form is packed by hand here (uncompressed, no mitmproxy code), so that a defect in
+            # DNSMessage.packed cannot hide itself by corrupting the input of the experiment
+            wire = self.hand_pack(case)
+            if wire is None or len(wire) > 65535: raise Skip()
             try:
-                m = self.build_dns(case); wire = m.packed; m0 = dns.DNSMessage.unpack(wire)
-                if m0.packed != wire or self.key(dns.DNSMessage.unpack(m0.packed)) != self.key(m0): raise Skip()
-            except Skip: raise
+                m = self.build_dns(case); m0 = dns.DNSMessage.unpack(wire)
             except Exception: raise Skip()
-            if self.key(m0)["rr"] != self.key(m)["rr"]:
-                raise Skip()       # mitmproxy.dns itself does not reproduce this rdata (pointer-like bytes: C25/C26)
+            if self.key(m0)["rr"] != self.key(m)["rr"] or self.key(m0)["hdr"] != self.key(m)["hdr"]:
+                raise Skip()       # mitmproxy.dns does not decode this wire form to the intended records (C25/C26, IDNA)
+            # C25/C26: rdata with pointer-like bytes that mitmproxy.dns rewrites on a further pack/unpack is not C50's subject
+            try:
+                again = self.key(dns.DNSMessage.unpack(m0.packed))["rr"]
+                for so, sb in zip(self.key(m0)["rr"], again):
+                    for ro, rb in zip(so, sb):
+                        if ro[:4] == rb[:4] and ro[4] != rb[4] and any(b >= 0xC0 for b in bytes.fromhex(ro[4])): raise Skip()
+            except Skip: raise
+            except Exception: pass
             mode = case["mode"]
             f = tflow.tdnsflow(req=m0)
             if mode == "dns": msg = m0
@@ -446,8 +516,21 @@ class Check(PropertyCheck):
                     data = bytes.fromhex(ro[4]); t = ro[1]
                     if t in LOOSE and self._undecodable(t, data): fid = "F-C50b"
                     elif t == 16 and "\x85" in data.decode("utf-8"): fid = "F-C50c"
+                    elif self._yaml_lossy(ro): fid = "F-C50d"
                 out.append((fid, f"record {ro} -> {rb}"))
         return out
+
+    @staticmethod
+    def _yaml_lossy(ro):
+        """the YAML library alone (yaml_loads o yaml_dumps, no DNS code) does not reproduce this record's JSON data when
+        it is dumped at the same nesting as in the DNS view"""
+        from mitmproxy import dns
+        from mitmproxy.contentviews._utils import yaml_dumps, yaml_loads
+        j = dns.ResourceRecord(ro[0], ro[1], ro[2], ro[3], bytes.fromhex(ro[4])).to_json()
+        try:
+            return yaml_loads(yaml_dumps({"answers": [j]}))["answers"][0]["data"] != j["data"]
+        except Exception:
+            return True
 
     @staticmethod
     def _undecodable(t, data):
@@ -551,6 +634,7 @@ class Check(PropertyCheck):
             return out
         if obs.get("hang"): return ["dns", "hang"]
         out = ["dns", "dns-mode:" + case["mode"], "dns-stage:" + obs["stage"]]
+        if case.get("big"): out.append("dns-big(>16KiB)")
         for fid, _ in self.dns_diffs(case, obs):
             out.append("dns-diff:" + (fid or "UNKNOWN"))
         if obs["stage"] == "done" and obs["orig"] == obs["back"]: out.append("dns-roundtrip-ok")
@@ -573,4 +657,5 @@ class Check(PropertyCheck):
         for v in views:
             for _ in range(40):
                 c = self.gen_render(rng, views); c["view"] = v; yield c
+        for _ in range(6): yield self.gen_big_dns(rng)
         for _ in range(2000): yield self.gen_dns(rng)
